@@ -193,8 +193,17 @@ def run_obligation(oid, params, tier):
     dom = [vsaglue.member(zx, *A), vsaglue.member(zy, *Bv)] if var == "si" else []
     known = common.known_for(common.load_known("C25"), oid)
 
+    def classify(m):
+        def ev(v):
+            if isinstance(v, E.SInt):
+                return m.eval(E.term(v), model_completion=True).as_long()
+            return int(v)
+
+        return "inherits" if vsaglue.attribute(ev) else None
+
     def build():
         E.FORMAT_MODE[0] = "concretize"
+        vsaglue.reset_calls()
         try:
             if pre:
                 E.ENG.assume(z3.And(*pre))
@@ -224,7 +233,7 @@ def run_obligation(oid, params, tier):
         base = z3.And(zc, *dom)
         if not sat:
             return [Fail("sat-flag", f"constraint_to_si({c!r:.160}) reports unsatisfiable, but an assignment satisfies it", base,
-                         known_key="sat-flag")]
+                         known_key="sat-flag", classify=classify)]
         bads = []
         for old, new, av in repl:
             zo = claripy.backends.z3.convert(old)
@@ -235,7 +244,7 @@ def run_obligation(oid, params, tier):
             bads.append(ni)
         if bads:
             fails.append(Fail("bound", f"constraint_to_si({c!r:.160}) bounds {[(repr(o)[:40], repr(a)[:60]) for o, _, a in repl]} "
-                                       f"exclude the value of a satisfying assignment", z3.And(base, z3.Or(*bads)), known_key="bound"))
+                                       f"exclude the value of a satisfying assignment", z3.And(base, z3.Or(*bads)), known_key="bound", classify=classify))
         return fails
 
     def make_case(vals, f):
